@@ -1971,6 +1971,7 @@ def rule_op_record(repo):
 from rules.c02 import rule_funcfold   # noqa: E402  (a writer hidden in a nested helper must be attributed to the block: shared with C02)
 from rules.c02 import rule_cache_scope   # noqa: E402  (read/write sets judged by the checks must not be stale cache entries of another lambda body)
 from rules.c02 import rule_visitor   # noqa: E402  (every statement position that can hold a store -- for/while else, with, try -- is visited, so no driver is invisible to the checks)
+from rules.c02 import rule_index_scope   # noqa: E402  (a loop variable used as index stands for every element: a second driver of out[1] must not be hidden by a global `i = 0`)
 from rules.c02 import rule_cache_readonly   # noqa: E402  (the written-object sets the multi-writer check judges are resolved per instance, not from a class-cache entry patched by an earlier instance)
 from rules.c08 import rule_byname   # noqa: E402  (a by-name interface connection that silently skips nested port lists hides a second driver from the checks)
 from rules.c08 import rule_collectors   # noqa: E402  (slice signals must reach all_signals also after replace_component, or slice-only nets are never checked)
@@ -1978,7 +1979,7 @@ from rules.c08 import rule_ancestors   # noqa: E402  (every signal ancestor of a
 
 RULES = [rule_overlap, rule_slicekey, rule_pipeline, rule_mw_guard, rule_mw_cover, rule_porttable, rule_optable,
          rule_nowriter, rule_loop, rule_raise_resolves, rule_const_host, rule_funcfold, rule_cache_scope, rule_ancestors,
-         rule_op_record, rule_visitor, rule_cache_readonly, rule_byname, rule_collectors]
+         rule_op_record, rule_visitor, rule_cache_readonly, rule_byname, rule_collectors, rule_index_scope]
 
 
 # ---------------------------------------------------------------------------
